@@ -226,7 +226,12 @@ def split_delay_tags(series, hed_schema, onsets):
         duration_tags = delay_string.find_top_level_tags({DefTagNames.DELAY_KEY})
         to_remove = []
         for tag, group in duration_tags:
-            onset_mod = tag.value_as_default_unit() + float(onsets[i])
+            try:
+                onset_mod = tag.value_as_default_unit() + float(onsets[i])
+            except (TypeError, ValueError):
+                # Invalid Delay value or units, or a non-numeric onset: leave the group where it is (validation
+                # reports the problem) instead of failing the whole file.
+                continue
             to_remove.append(group)
             insert_index = split_df['original_index'].index.max() + 1
             split_df.loc[insert_index] = {'HED': str(group), 'onset': onset_mod, 'original_index': i}
